@@ -79,38 +79,38 @@ func runGpromise(c *Ctx) {
 			continue
 		}
 		name := core.FuncName(d.Obj)
-		nsel, nloop, ndef := 0, 0, 0
-		ast.Inspect(d.Decl.Body, func(n ast.Node) bool {
-			switch x := n.(type) {
-			case *ast.SelectStmt:
-				nsel++
-				for _, cl := range x.Body.List {
-					if cl.(*ast.CommClause).Comm == nil {
-						ndef++
-					}
-				}
-			case *ast.ForStmt, *ast.RangeStmt:
-				nloop++
-			}
-			return true
-		})
-		a.note("R9", name+"/blocking-select", d.Decl.Pos(), !(nsel == 1 && nloop == 0 && ndef == 0),
-			"one select, no default clause, no loop: the await blocks without polling",
-			sprintf("the await is not a single blocking select (selects=%d, default clauses=%d, loops=%d): it may poll or spin", nsel, ndef, nloop), nil)
-		c.Walk("R9", &core.Config{Follow: samePkgFollow(d.Pkg.PkgPath)}, core.Entry{Decl: d}, func(p *core.Path) {
+		// path-based (an await that delegates to a sibling await is judged through the delegation): every
+		// returning path blocks in exactly one select without default and passes no loop; the stored
+		// result (the result/err fields) is read only after the receive from done
+		c.Walk("R9", &core.Config{EmitAccess: true, Follow: samePkgFollow(d.Pkg.PkgPath)}, core.Entry{Decl: d}, func(p *core.Path) {
 			gotDone := false
+			nsel, nloop, ndef := 0, 0, 0
 			for _, ev := range p.Events {
-				if ev.Kind == core.KRecv {
+				switch ev.Kind {
+				case core.KSelect:
+					if ev.HasDefault {
+						ndef++
+					} else {
+						nsel++
+					}
+				case core.KLoop, core.KRange, core.KHavoc:
+					nloop++
+				case core.KRecv:
 					if fv := fieldVar(ev.Chan, ev.Frame); fv != nil && core.FieldName(fv) == "promise.Promise.done" {
 						gotDone = true
 					}
-				}
-				if ev.Kind == core.KReturn && ev.Frame.Parent == nil && len(ev.Results) == 2 {
-					returnsResult := strings.Contains(core.ExprString(ev.Results[0]), ".result") || strings.Contains(core.ExprString(ev.Results[1]), "p.err")
-					if returnsResult {
-						a.note("R9", name+"/result-only-after-done", ev.Pos, !gotDone, "the stored result is returned only from the done arm", "the stored result is returned on a path that did not receive from done", p)
+				case core.KAccess:
+					if !ev.Write && ev.Var != nil && ev.Var.IsField() {
+						if fn := core.FieldName(ev.Var); fn == "promise.Promise.result" || fn == "promise.Promise.err" {
+							a.note("R9", name+"/result-only-after-done", ev.Pos, !gotDone, "the stored result is read only after the receive from done", "the stored result is read on a path that did not receive from done", p)
+						}
 					}
 				}
+			}
+			if p.End == core.EndReturn {
+				a.note("R9", name+"/blocking-select", d.Decl.Pos(), !(nsel == 1 && nloop == 0 && ndef == 0),
+					"one select, no default clause, no loop on every path: the await blocks without polling",
+					sprintf("a path of the await is not a single blocking select (selects=%d, default clauses=%d, loops=%d): it may poll or spin", nsel, ndef, nloop), p)
 			}
 		})
 	}
@@ -353,6 +353,16 @@ func runGpromise(c *Ctx) {
 				if v := localWhere(od, od.Decl, func(v *types.Var, _ *ast.Ident) bool { return isProm(v.Type()) }); v != nil {
 					promRole = c.Role(v)
 				}
+				// … or the *Promise parameter of the goroutine literal itself (go func(started *Promise){…}(prom))
+				if ge.e.Lit != nil && ge.e.Lit.Type.Params != nil {
+					for _, f := range ge.e.Lit.Type.Params.List {
+						for _, n := range f.Names {
+							if pv, _ := ge.e.Pkg.TypesInfo.Defs[n].(*types.Var); pv != nil && isProm(pv.Type()) {
+								promRole = c.Role(pv)
+							}
+						}
+					}
+				}
 			}
 			c.Walk("R8", &core.Config{Follow: samePkgFollow(d.Pkg.PkgPath)}, ge.e, func(p *core.Path) {
 				g := prepare(c, p)
@@ -433,8 +443,19 @@ func runGpromise(c *Ctx) {
 			lname string
 		}
 		var mes []memoEntry
-		for li, l := range escapingLits(c, d) {
-			lname := sprintf("%s.func#%d", name, li+1)
+		// (the closures of the memoized function's own type — a helper closure such as a deferred
+		// publish step is part of the body of the one that calls it)
+		var resT types.Type
+		if sig, ok := d.Obj.Type().(*types.Signature); ok && sig.Results().Len() == 1 {
+			resT = sig.Results().At(0).Type()
+		}
+		li := 0
+		for _, l := range escapingLits(c, d) {
+			if lt := d.Pkg.TypesInfo.TypeOf(l); resT != nil && lt != nil && !types.Identical(lt, resT) {
+				continue
+			}
+			li++
+			lname := sprintf("%s.func#%d", name, li)
 			mes = append(mes, memoEntry{core.Entry{Lit: l, Pkg: d.Pkg, Outer: d, Name: lname}, lname})
 		}
 		ast.Inspect(d.Decl.Body, func(n ast.Node) bool {
@@ -467,6 +488,19 @@ func runGpromise(c *Ctx) {
 					if ev.Kind == core.KDefer && ev.Call != nil {
 						if id, ok := unparen(ev.Call.Fun).(*ast.Ident); ok && id.Name == "close" {
 							closeDeferred = true
+						}
+						// … or a local closure whose body closes a channel (defer publish())
+						if ev.FunVal.Kind == core.VFuncLit && ev.FunVal.Lit != nil {
+							ast.Inspect(ev.FunVal.Lit.Body, func(n ast.Node) bool {
+								if call, ok := n.(*ast.CallExpr); ok {
+									if id, ok := unparen(call.Fun).(*ast.Ident); ok && id.Name == "close" {
+										if _, isB := ev.Frame.Info().ObjectOf(id).(*types.Builtin); isB {
+											closeDeferred = true
+										}
+									}
+								}
+								return true
+							})
 						}
 					}
 					// the call of the function being memoized: a dynamic call of the parameter, or of a field
@@ -746,8 +780,18 @@ func runGccall(c *Ctx) {
 				}
 			}
 			if ev.Kind == core.KCall && ev.Callee == nil && ev.Builtin == "" {
-				if ix, ok := unparen(ev.Call.Fun).(*ast.IndexExpr); ok {
-					t, _ := (&gbuilder{c: c, defs: g.defs[i]}).term(ix, ev.Frame)
+				ix, ok := unparen(ev.Call.Fun).(*ast.IndexExpr)
+				var fnE ast.Expr = ix
+				if !ok {
+					// … or a helper's parameter of the functions' type, called on the calling goroutine
+					if v := identVar(ev.Call.Fun, ev.Frame); v != nil && !v.IsField() && len(pv) > 0 {
+						if sl, isSl := pv[len(pv)-1].Type().Underlying().(*types.Slice); isSl && types.Identical(sl.Elem(), v.Type()) && ev.Frame.Lit == nil {
+							ok, fnE = true, ev.Call.Fun
+						}
+					}
+				}
+				if ok {
+					t, _ := g.builderAt(i).term(fnE, ev.Frame)
 					a.requireGuard("R6a", name+"/fast-path-non-nil", g, i, false, fnot(eq(t, "nil")), "calling the single function")
 					a.note("R13e", name+"/cancel-deferred", ev.Pos, !cancelDeferred, "subCtxCancel is deferred before the function is called", "the single function is called before the sub-context's cancel func is deferred", p)
 				}
@@ -980,6 +1024,14 @@ func runGccontainer(c *Ctx) {
 					chase = func(e ast.Expr, fr *core.Frame, at, depth int) bool {
 						if call, isCall := unparen(e).(*ast.CallExpr); isCall && len(pv) > 0 && identVar(call.Fun, fr) == pv[0] {
 							return true
+						}
+						// the result of a same-package accessor walked in place (return c.GetValue())
+						if call, isCall := unparen(e).(*ast.CallExpr); isCall && depth < 4 {
+							if ri, inl := g.rets[call]; inl {
+								if re, _ := retResult(p.Events[ri], 0); re != nil {
+									return chase(re, p.Events[ri].Frame, at, depth+1)
+								}
+							}
 						}
 						if fv := fieldVar(e, fr); fv != nil && core.FieldName(fv) == val {
 							return true
